@@ -5,7 +5,7 @@ cd $WT || exit 2
 git diff > /tmp/confirm_$ID.diff
 if ! diff -q /tmp/confirm_$ID.diff $SD/patch.diff >/dev/null; then echo "NOTE: worktree diff != patch.diff - resetting worktree to patch.diff"; git checkout -- .; git apply $SD/patch.diff; fi
 echo "--- tests with change"
-rm -f test/src/*/grammar.rs
+rm -f test/src/*/grammar.rs; touch test/build.rs
 cargo test --workspace --no-fail-fast --offline 2>&1 | grep -E "^test result" | awk '{p+=$4; f+=$6} END {print "passed",p,"failed",f}'
 echo "--- demo with change"; ( bash $SD/run.sh >/tmp/confirm_${ID}_with.log 2>&1; echo "exit $?" )
 git apply -R $SD/patch.diff
